@@ -1965,12 +1965,33 @@ fn main() {
 			// of old outputs, compaction runs `depth` blocks above the fork point, then the fork wins
 			init_thread(false);
 			vcommon::world::init_globals(true);
-			let horizon = grin_core::global::cut_through_horizon() as usize;
 			let k = i - n_planned;
-			let depth = [1usize, horizon, 3, horizon - 1][k % 4];
+			// (chain parameters, depth of the reorganisation, headers of the winning fork known before the compaction)
+			// UserTesting: cut-through horizon 70 but state-sync threshold 20 — the only testing parameter set in
+			// which the two differ, as they do on mainnet (10080 / 2880)
+			let user_testing = matches!(k % 6, 3 | 4);
+			if user_testing {
+				use grin_core::global::{self, ChainTypes};
+				global::set_global_chain_type(ChainTypes::UserTesting);
+				global::set_local_chain_type(ChainTypes::UserTesting);
+			}
+			let horizon = grin_core::global::cut_through_horizon() as usize;
+			let threshold = grin_core::global::state_sync_threshold() as usize;
+			let (depth, headers_first) = match k % 6 {
+				0 => (1usize, false),
+				1 => (horizon, false),
+				2 => (3, true),
+				3 => ((threshold + horizon) / 2, false),
+				4 => (horizon - 1, true),
+				_ => (horizon - 1, true),
+			};
+			run.count(if user_testing { "chain_compaction_reorg_scenarios.user_testing_parameters" } else { "chain_compaction_reorg_scenarios.automated_testing_parameters" }, 1);
+			if headers_first {
+				run.count("chain_compaction_reorg_scenarios.headers_of_the_winning_fork_first", 1);
+			}
 			let seed = run.seed ^ ((k as u64 + 1).wrapping_mul(0x9E37_79B9_7F4A_7C15));
 			let dir = sc.sub(&format!("cr{}", k));
-			match catch(|| vcommon::scenarios::compaction_reorg_scenario(seed, depth, &dir)) {
+			match catch(|| vcommon::scenarios::compaction_reorg_scenario_ex(seed, depth, &dir, headers_first)) {
 				Ok(Ok(st)) => {
 					run.count("chain_compaction_reorg_scenarios_completed", 1);
 					run.count("chain_compaction_reorg_state_comparisons", st.state_comparisons);
@@ -2019,7 +2040,7 @@ fn main() {
 	std::thread::scope(|s| {
 		if n_chain > 0 {
 			s.spawn(|| {
-				run.spawn_workers(n_chain + run.tier.pick(2, 4), &[], run.tier.pick(240, 690));
+				run.spawn_workers(n_chain + run.tier.pick(4, 6), &[], run.tier.pick(300, 900));
 			});
 		}
 		for _ in 0..n_threads {
@@ -2105,7 +2126,12 @@ fn main() {
 		run.require(
 			"compaction x reorg scenarios (spender of sibling pairs right above the fork point)",
 			run.counter("chain_compaction_reorg_scenarios_with_effective_compaction"),
-			run.tier.pick(2, 4),
+			run.tier.pick(4, 6),
+		);
+		run.require(
+			"compaction x reorg scenarios under UserTesting parameters (horizon 70, state-sync threshold 20)",
+			run.counter("chain_compaction_reorg_scenarios.user_testing_parameters"),
+			1,
 		);
 		run.require(
 			"chain compactions that changed the MMR files",
